@@ -18,6 +18,8 @@ of the unrestricted statement on that witness); with the repaired printer the th
 raw public key hashes too (`rawpkh_*` below are now instances of T5).
 -/
 import MsVerif.Lemmas.DisplayPlain
+import MsVerif.Spec.Bip388
+import MsVerif.Spec.KeyGrammar
 
 namespace MsVerif.C10b
 open MsVerif MsVerif.Display
@@ -134,5 +136,74 @@ example : fromTree idCodec (plainTree idCodec sample) = fromTree idCodec (toTree
 
 example : fromTree idCodec (toTree idCodec (.check (.rawPkH 0))) = .ok (.check (.rawPkH 0)) :=
   rawpkh_check_roundtrip idCodec 0 rawpkh_admissible
+
+/-! ## numeric arguments -/
+
+/-- every value in the range of its position, printed in decimal, is read back as that value
+(lock times, threshold `k`, `or` weights): printing a number and parsing it is the identity -/
+theorem numArg_showNat (pos : NumPos) (v : Nat) (hv : v ≤ 4294967295)
+    (hr : match pos with
+          | .lock => 1 ≤ v ∧ v ≤ 2147483647
+          | .threshK _ lo hi => lo ≤ v ∧ v ≤ hi
+          | .weight => 1 ≤ v) :
+    numArg pos (showNat v) = some v := by
+  unfold numArg
+  rw [parseNum_showNat v hv]
+  cases pos <;> simp_all
+
+/-- a text `parse_num` refuses is refused at every position -/
+theorem numArg_none_of_parseNum (pos : NumPos) (s : List Char) (e : Expr.NumErr)
+    (h : Expr.parseNum s = .error e) : numArg pos s = none := by
+  unfold numArg; rw [h]
+
+/-- texts that are not canonical `u32` decimals are refused at every position -/
+theorem numArg_noncanonical (pos : NumPos) :
+    numArg pos "01".toList = none ∧ numArg pos "+1".toList = none ∧ numArg pos "".toList = none
+      ∧ numArg pos "4294967296".toList = none ∧ numArg pos "18446744073709551616".toList = none :=
+  ⟨numArg_none_of_parseNum pos _ .invalidLeadingDigit (by rfl),
+   numArg_none_of_parseNum pos _ .invalidLeadingDigit (by rfl),
+   numArg_none_of_parseNum pos _ .empty (by rfl),
+   numArg_none_of_parseNum pos _ .posOverflow (by rfl),
+   numArg_none_of_parseNum pos _ .posOverflow (by rfl)⟩
+
+example : numArg .lock "2147483648".toList = none ∧ numArg .lock "0".toList = none
+    ∧ numArg (.threshK 3 1 3) "4".toList = none ∧ numArg .weight "4294967295".toList = some 4294967295 := by
+  decide +kernel
+
+/-! ## the text-level specifications used by the judges are consistent on instances -/
+
+open Spec.Bip388 in
+/-- BIP-388: the template of a descriptor with a repeated key instantiates back to the descriptor,
+and satisfies the placeholder rules with two key information items -/
+theorem bip388_template_instance :
+    let d := "wsh(multi(2,[d3/48']xpubA/<0;1>/*,tpubB/<4;9>/*,[d3/48']xpubA/<2;3>/*))".toList
+    (templateOf d).map (fun r => String.ofList r.1) = some "wsh(multi(2,@0/**,@1/<4;9>/*,@0/<2;3>/*))"
+    ∧ ((templateOf d).bind fun r => instantiate r.1 r.2) = some d
+    ∧ ((templateOf d).bind fun r => checkTemplate r.1).map (·.2) = some 2 := by
+  decide +kernel
+
+open Spec.Bip388 in
+/-- BIP-388: descriptors without a template and templates breaking the placeholder rules -/
+theorem bip388_rejections :
+    templateOf "wpkh(xpubA/0/*)".toList = none ∧ templateOf "wpkh(xpubA/<1;0>/*)".toList = none
+    ∧ templateOf "wsh(multi(2,xpubA/<0;1>/*,xpubA/<1;2>/*))".toList = none
+    ∧ checkTemplate "wsh(multi(2,@1/**,@0/**))".toList = none
+    ∧ checkTemplate "wpkh(@1/**)".toList = none
+    ∧ checkTemplate "wsh(multi(2,@0/**,@0/<1;2>/*))".toList = none
+    ∧ checkTemplate "wpkh(@0x/**)".toList = none
+    ∧ (checkTemplate "wsh(multi(2,@0/**,@1/**,@1/<2;3>/*))".toList).isSome = true := by
+  decide +kernel
+
+open Spec.KeyGrammar in
+/-- BIP-380/389 key grammar on instances (x-only hex key with origin; malformed spellings) -/
+theorem keyexpr_instances :
+    valid false "[d34db33f/44'/0h/7]c57b973499cb87c1409b29b475185b624c6abb8421f003246f1ede275d367af4".toList = true
+    ∧ valid false "[d34db33f/44H]c57b973499cb87c1409b29b475185b624c6abb8421f003246f1ede275d367af4".toList = false
+    ∧ valid false "[d34db33]c57b973499cb87c1409b29b475185b624c6abb8421f003246f1ede275d367af4".toList = false
+    ∧ isMulti "<0;1h;2'>".toList = true ∧ isMulti "<0>".toList = false
+    ∧ derivOk ["0".toList, "<0;1>".toList, "*h".toList] false = true
+    ∧ derivOk ["<0;1>".toList, "<2;3>".toList] false = false
+    ∧ derivOk ["*".toList, "0".toList] false = false := by
+  decide +kernel
 
 end MsVerif.C10b
